@@ -35,9 +35,29 @@ pub mod verif_kernels {
         ORDER.iter().map(|p| out[p].ok().map(|x| (x.value, x.extreme))).collect()
     }
 
-    pub fn k_hour_to_time(params: &Params, prayer: Prayer, hour: f64) -> u32 {
-        use chrono::Timelike;
-        hour_to_time(params, prayer, hour).num_seconds_from_midnight()
+    /// Seconds of the day of whatever hour_to_time returns (NaiveTime, or an Option/Result of it after a refactor).
+    pub trait VSecs {
+        fn vsecs(self) -> Option<u32>;
+    }
+    impl VSecs for NaiveTime {
+        fn vsecs(self) -> Option<u32> {
+            use chrono::Timelike;
+            Some(self.num_seconds_from_midnight())
+        }
+    }
+    impl<E> VSecs for Result<NaiveTime, E> {
+        fn vsecs(self) -> Option<u32> {
+            self.ok().and_then(|t| t.vsecs())
+        }
+    }
+    impl VSecs for Option<NaiveTime> {
+        fn vsecs(self) -> Option<u32> {
+            self.and_then(|t| t.vsecs())
+        }
+    }
+
+    pub fn k_hour_to_time(params: &Params, prayer: Prayer, hour: f64) -> Option<u32> {
+        hour_to_time(params, prayer, hour).vsecs()
     }
 
     pub fn k_julian_day(date: NaiveDate, gmt: f64, add: i64) -> (f64, String) {
